@@ -402,10 +402,88 @@ def r20b(ctx, P):
                "score-mutating call at %s can run after final_score was set at %s" % (after[0].loc(), s.loc()), s.loc())
 
 
+def r20c(ctx, P):
+    rid = "R20.c"
+    ctx.rule(rid, "FLOW (explain ranks every live document): the explain path does not use the shared heap; each segment returns its "
+                  "ranked documents cut at SegmentSearchParams.rank_limit, and the executor breaks score ties by doc id, not by the "
+                  "request's remaining sort keys — so any cut below the segment's live-document count can drop a hit the "
+                  "non-explain path returns. Every definition of the rank_limit value that is controlled by the true arm of a test on "
+                  "`explain` derives from the segment's live_docs()/doc count and from nothing request-sized (limit, cursor, "
+                  "candidate_size)")
+    f = P.fn(N.READER + "::search")
+    if not ctx.anchor(rid, f, "IndexReader::search"):
+        return
+    adt = P.adts.get("searchlite_core::api::reader::SegmentSearchParams")
+    if not ctx.anchor(rid, adt, "SegmentSearchParams"):
+        return
+    names = [x[0] for x in adt["variants"][0]["fields"]]
+    if not ctx.anchor(rid, "rank_limit" in names, "SegmentSearchParams.rank_limit"):
+        return
+    idx = names.index("rank_limit")
+    sl = Slice(f, through_all_calls=True)
+    sl0 = Slice(f)
+    defs = f.defs()
+    n = 0
+    for b, i, st in f.stmts():
+        if st["k"] != "assign" or st["rv"]["k"] != "agg" or not (st["rv"].get("adt") or "").endswith("::SegmentSearchParams"):
+            continue
+        o = st["rv"]["ops"][idx]
+        l = op_local(o)
+        seen = set()
+        while l is not None and l not in seen:
+            seen.add(l)
+            dfs = [d for d in defs.get(l, []) if not d.get("partial")]
+            if f.locals[l].get("name") or len(dfs) != 1 or dfs[0]["k"] != "assign" or dfs[0]["rv"]["k"] not in ("use", "cast") or \
+                    op_local(dfs[0]["rv"]["a"]) is None:
+                break
+            l = op_local(dfs[0]["rv"]["a"])
+        if l is None:
+            continue
+        for d in defs.get(l, []):
+            # controlled by the true arm of a test on `explain`?
+            in_explain = False
+            for (a, succ) in f.control_deps_transitive(d["b"]):
+                t = f.blocks[a]["term"]
+                if t["k"] != "switch" or "explain" not in sl0.fields(t["on"]):
+                    continue
+                vals = dict(zip(t["values"], t["targets"]))
+                true_succ = t["otherwise"] if 0 in vals else vals.get(1)
+                if succ == true_succ:
+                    in_explain = True
+            if not in_explain:
+                continue
+            n += 1
+            if d["k"] == "call":
+                flds, cals = set(), {callee_of(d["t"])}
+                for a_ in d["t"]["args"]:
+                    flds |= sl.fields(a_)
+                    cals |= sl.callees(a_)
+            else:
+                rv = d["rv"]
+                ops = [rv["a"]] if rv["k"] in ("use", "cast", "unop") else ([rv["a"], rv["b"]] if rv["k"] == "binop" else rv.get("ops", []))
+                flds, cals = set(), set()
+                for a_ in ops:
+                    if isinstance(a_, dict) and op_local(a_) is not None:
+                        flds |= sl.fields(a_)
+                        cals |= sl.callees(a_)
+            sized = sorted(flds & {"limit", "cursor", "candidate_size"})
+            whole = any(c.endswith(("::live_docs", "::doc_count", "::max_doc")) for c in cals) or bool(flds & {"doc_count"})
+            ok = whole and not sized
+            ctx.ob(rid, "%s:search:explain-rank-limit" % rid, ok,
+                   "under explain the per-segment rank limit at %s is the segment's live-document count" % Site(f, d["b"], d.get("i", TERM)).loc() if ok else
+                   "under explain the per-segment rank limit defined at %s %s: the executor's cut (ties by doc id) can drop documents the "
+                   "final sort would keep, so explain changes hits, order, cursors and totals" % (
+                       Site(f, d["b"], d.get("i", TERM)).loc(),
+                       ("depends on the request's %s" % ", ".join(sized)) if sized else "is not derived from the segment's live-document count"),
+                   Site(f, d["b"], d.get("i", TERM)).loc())
+    ctx.floor(rid, n, 1, "definition of the per-segment rank limit under `explain`")
+
+
 def run(ctx, progs):
     P = progs.get("default")
     r20a(ctx, P)
     r20b(ctx, P)
+    r20c(ctx, P)
     if ctx.tier == "thorough":
         ctx.config = "features"
         Pf = progs.get("features")
